@@ -13,6 +13,7 @@
    check executes) satisfies round_model for every kmax. *)
 From Coq Require Import ZArith List.
 From Trzsz Require Import Base.Bytes Gen.Consts Model.Progress Proofs.Progress.
+From Trzsz Require Import Model.Proc Gen.Skel_pipeline Proofs.ProgressOrder.
 Import ListNotations.
 Local Open Scope Z_scope.
 
@@ -193,6 +194,39 @@ Example C20_file_after_resumed_file :
      (new_bar 120 0)) in
   figs st = (0, 2000, 2000).
 Proof. vm_compute. reflexivity. Qed.
+
+(* ORDER: the transfer delivers all steps of an entry before its onDone and before anything of
+   the next entry.  (1) The callbacks of well-formed files (steps of each phase in order, within
+   the announced size and reaching it; the prefix = the last matching hash step), in the order
+   transfer.go / append.go make them, are words of the language cb_lang_ok, for every number
+   of files ... *)
+Theorem C20_callback_order_language : forall n plans, Forall plan_wf plans ->
+  cb_lang_ok (OpNum n :: concat (map plan_ops plans)) = true.
+Proof. exact cb_transfer_in_language. Qed.
+Print Assumptions C20_callback_order_language.
+
+(* ... and a step of one file delivered after the next file has been announced is not *)
+Theorem C20_late_step_not_in_language :
+  cb_lang_ok [OpNum 2; OpName [97%N]; OpSize 65536; OpStep 0 0 [] [] []; OpDone 0 [] [] [];
+              OpName [98%N]; OpStep 65536 0 [] [] []; OpSize 2097152; OpStep 0 0 [] [] []] = false /\
+  cb_lang_ok [OpNum 2; OpName [97%N]; OpSize 65536; OpStep 0 0 [] [] []; OpStep 65536 0 [] [] []; OpDone 0 [] [] [];
+              OpName [98%N]; OpSize 2097152; OpStep 0 0 [] [] []; OpStep 2097152 0 [] [] []; OpDone 0 [] [] []] = true.
+Proof. exact cb_late_step_rejected. Qed.
+Print Assumptions C20_late_step_not_in_language.
+
+(* (2) On the skeletons regenerated from pipeline.go: the only goroutine that calls onStep during
+   the data phase (pipelineShowProgress) is joined by the deferred statements of the main function
+   of both data pipelines - `defer wg.Wait()` - so sendFileDataV2 / recvFileDataV2 return, and the
+   transfer goes on to onDone and the next file, only after the last step has been delivered *)
+Theorem C20_display_goroutine_joined :
+  existsb (joins_stmt p_send_ShowProgress) (finally send_main_proc) = true /\
+  existsb (joins_stmt p_recv_ShowProgress) (finally recv_main_proc) = true /\
+  nth_error (procs_of send_net) p_send_ShowProgress = Some send_ShowProgress_proc /\
+  nth_error (procs_of recv_net) p_recv_ShowProgress = Some recv_ShowProgress_proc /\
+  nth_error (procs_of send_net) p_send_main = Some send_main_proc /\
+  nth_error (procs_of recv_net) p_recv_main = Some recv_main_proc.
+Proof. exact display_goroutine_joined. Qed.
+Print Assumptions C20_display_goroutine_joined.
 
 (* the premises are satisfiable: the exact rounding the correspondence check executes is a
    round_model for every bound, and there is a width model *)
